@@ -11,6 +11,8 @@ checks = [prop]
 if "--checks" in sys.argv:
     checks = sys.argv[sys.argv.index("--checks") + 1].split(",")
 src = f"/root/verif_scratch/seeds/{prop}" if os.path.isdir(f"/root/verif_scratch/seeds/{prop}") else f"/tmp/seed-{prop}"
+if "--src" in sys.argv:
+    src = sys.argv[sys.argv.index("--src") + 1]
 sid = f"{prop}-{suffix}"
 patch = open(os.path.join(src, "seed_patch.diff")).read()
 # keep only hunks touching fortls/
